@@ -49,7 +49,7 @@ func NewSolver(pref string, timeoutMs, fallbackS int) *Solver {
 }
 
 func (s *Solver) start() {
-	cmd := exec.Command("z3", "-in")
+	cmd := exec.Command(z3Bin(), "-in")
 	in, _ := cmd.StdinPipe()
 	outp, _ := cmd.StdoutPipe()
 	cmd.Stderr = cmd.Stdout
@@ -584,4 +584,12 @@ func (s *Solver) raceQuiet(script string, only string) string {
 		return r
 	}
 	return "unknown"
+}
+
+// z3Bin selects the binary for the long-lived incremental solver (VERIF_Z3=z3|z3-new).
+func z3Bin() string {
+	if b := os.Getenv("VERIF_Z3"); b != "" {
+		return b
+	}
+	return "z3-new"
 }
